@@ -182,8 +182,9 @@ def _label(K, A, D):
 
 
 @R.rule("C35-R1", floor=13, template="T-BOOL",
-        desc="transient/pending/persistent/deleted/detached are boolean formulas over (key is None, _attached, "
-             "_deleted); for each of the 8 assignments exactly one predicate holds")
+        desc="transient/pending/persistent/deleted/detached are boolean functions of (key is None, _attached, "
+             "_deleted), evaluated over all return paths of their bodies (guard clauses, boolean locals, helper properties); "
+             "for each of the 8 assignments exactly one predicate holds")
 def r1(ctx):
     preds = _predicates(ctx)
     table = {}
@@ -486,8 +487,10 @@ def r3(ctx):
     f = ctx.func(f"{SESSION}::Session._update_impl")
     g = ctx.cfg(f)
     recv = f.params[1]
+    aliases = _event_aliases(f.node)
     fires = g.find(lambda n: n.kind == "stmt" and isinstance(n.stmt, ast.Expr) and isinstance(n.stmt.value, ast.Call)
-                   and isinstance(n.stmt.value.func, ast.Attribute) and n.stmt.value.func.attr == "deleted_to_persistent")
+                   and ((isinstance(n.stmt.value.func, ast.Attribute) and n.stmt.value.func.attr == "deleted_to_persistent")
+                        or (isinstance(n.stmt.value.func, ast.Name) and aliases.get(n.stmt.value.func.id) == "deleted_to_persistent")))
     ctx.require(fires, "_update_impl has no deleted_to_persistent dispatch")
     undeletes = g.find(lambda n: n.kind == "stmt" and ((isinstance(n.stmt, ast.Delete) and any(dotted(t) == f"{recv}._deleted" for t in n.stmt.targets))
                                                      or (isinstance(n.stmt, ast.Assign) and any(dotted(t) == f"{recv}._deleted" for t in n.stmt.targets)
@@ -595,7 +598,8 @@ def _qual(pm, node) -> str:
 
 
 @R.rule("C35-R4", floor=18, template="T-OWN",
-        desc="InstanceState.key / session_id / _deleted are written only by the enumerated owner functions")
+        desc="InstanceState.key / session_id / _deleted are written only by the enumerated owner functions (or by a private "
+             "helper every use of which is a call from such an owner)")
 def r4(ctx):
     found: Dict[Tuple[str, str], str] = {}
     for m in ctx.index.all_modules():
@@ -809,3 +813,11 @@ R.mutant("helper-of-a-non-owner-writes-deleted", SESSION,
 R.mutant("helper-shared-by-owner-and-non-owner-writes-key", SESSION,
          chain(sub(_SW_OLD.replace("                    self.identity_map.safe_discard(state)\n", ""), _SW_OLD.replace("                    self.identity_map.safe_discard(state)\n", "").replace("                    state.key = instance_key\n", "                    self._set_key(state, instance_key)\n")),
                sub(_VP, "    def _set_key(self, state: InstanceState[Any], key: Any) -> None:\n        state.key = key\n\n" + _VP + "        self._set_key(state, state.key)\n")), "C35-R4")
+
+_UI_OLD = "        elif revert_deletion and was_deleted:\n            self.dispatch.deleted_to_persistent(self, state)\n"
+R.mutant("benign-update-impl-event-alias-and-named-guard", SESSION,
+         sub(_UI_OLD, "        else:\n            reverted = revert_deletion and was_deleted\n            deleted_to_persistent = self.dispatch.deleted_to_persistent or None\n"
+                      "            if reverted and deleted_to_persistent is not None:\n                deleted_to_persistent(self, state)\n"), None)
+R.mutant("update-impl-event-alias-guard-forgets-was-deleted", SESSION,
+         sub(_UI_OLD, "        else:\n            reverted = revert_deletion\n            deleted_to_persistent = self.dispatch.deleted_to_persistent or None\n"
+                      "            if reverted and deleted_to_persistent is not None:\n                deleted_to_persistent(self, state)\n"), "C35-R3")
